@@ -388,92 +388,96 @@ theorem rookHop_rook (to r f t : Nat) (h : rookHop to = some (r, f, t)) : r = WR
 
 /-- **the cached occupancy sets after `make_search_move`** are the white pieces, the black pieces and all pieces of the
     new board, given that they were of the old one -/
+theorem makeCore_occ_force (g : Game) (m : Move) (b : Board)
+    (hW : OccF whiteAt g.whiteOcc b) (hB : OccF blackAt g.blackOcc b) (hA : OccF Option.isSome g.allOcc b)
+    (fits : MoveFits b g.white m) :
+    OccF whiteAt (makeForce g m).whiteOcc (applyB b g.white m) ∧ OccF blackAt (makeForce g m).blackOcc (applyB b g.white m) ∧
+    OccF Option.isSome (makeForce g m).allOcc (applyB b g.white m) := by
+  unfold makeForce
+  obtain ⟨pw, p1, p2, p3⟩ := makePre_occ g m
+  have hWP : WP = 0 := rfl
+  have hBP : BP = 6 := rfl
+  have hWR : WR = 3 := rfl
+  have hBR : BR = 9 := rfl
+  by_cases hcs : m.isCastling = true
+  · -- castling
+    obtain ⟨hpn, hc, r, f, t, hhop, _, _, _, _, hro, _⟩ := fits.castle hcs
+    obtain ⟨q1, q2, q3⟩ := makePost_occ_castle (makePre g m) m hpn hcs r f t hhop
+    rw [q1, q2, q3, pw, p1, p2, p3]
+    simp only [hc, Bool.false_eq_true, if_false]
+    cases hw : g.white
+    · rw [hw] at fits hro
+      have hr : r ≠ WR := by
+        rcases rookHop_rook _ _ _ _ hhop with h | h
+        · subst h; unfold ownP at hro; simp at hro <;> omega
+        · rw [h]; decide
+      simp only [Bool.false_eq_true, if_false, if_neg hr]
+      exact ⟨occ_castle_opp whiteAt _ fits hcs r f t hhop rfl (whiteAt_enemy _ fits.piece) (whiteAt_enemy _ hro) hW,
+        occ_castle_own blackAt _ fits hcs r f t hhop rfl (blackAt_own _ fits.piece) (blackAt_own _ hro) hB,
+        occ_castle_own Option.isSome _ fits hcs r f t hhop rfl rfl rfl hA⟩
+    · rw [hw] at fits hro
+      have hr : r = WR := by
+        rcases rookHop_rook _ _ _ _ hhop with h | h
+        · exact h
+        · subst h; unfold ownP at hro; simp at hro <;> omega
+      simp only [if_true, if_pos hr]
+      exact ⟨occ_castle_own whiteAt _ fits hcs r f t hhop rfl (whiteAt_own _ fits.piece) (whiteAt_own _ hro) hW,
+        occ_castle_opp blackAt _ fits hcs r f t hhop rfl (blackAt_enemy _ fits.piece) (blackAt_enemy _ hro) hB,
+        occ_castle_own Option.isSome _ fits hcs r f t hhop rfl rfl rfl hA⟩
+  · have hcf : m.isCastling = false := by simpa using hcs
+    obtain ⟨q1, q2, q3⟩ := makePost_occ_plain (makePre g m) m (Or.inr hcf)
+    rw [q1, q2, q3, pw, p1, p2, p3]
+    by_cases he : m.isEnpassant = true
+    · -- en passant
+      have hc := (fits.ep he).1
+      simp only [hc, he, if_true]
+      cases hw : g.white
+      · rw [hw] at fits
+        simp only [Bool.false_eq_true, if_false]
+        exact ⟨by have := occ_ep_opp whiteAt g.whiteOcc fits he rfl (whiteAt_enemy _ fits.piece) hW; simpa [vsq] using this,
+          occ_ep_own blackAt _ fits he rfl (blackAt_own _ fits.piece) (by simp [blackAt]) hB,
+          occ_ep_all _ fits he hA⟩
+      · rw [hw] at fits
+        simp only [if_true]
+        exact ⟨occ_ep_own whiteAt _ fits he rfl (whiteAt_own _ fits.piece) (by simp [whiteAt]) hW,
+          by have := occ_ep_opp blackAt g.blackOcc fits he rfl (blackAt_enemy _ fits.piece) hB; simpa [vsq] using this,
+          occ_ep_all _ fits he hA⟩
+    · have hef : m.isEnpassant = false := by simpa using he
+      simp only [hef, Bool.false_eq_true, if_false]
+      by_cases hc : m.isCapture = true
+      · simp only [hc, if_true]
+        cases hw : g.white
+        · rw [hw] at fits
+          simp only [Bool.false_eq_true, if_false]
+          exact ⟨occ_plain_opp_cap whiteAt _ fits hef hcf rfl (whiteAt_enemy _ fits.piece) (fun h => whiteAt_enemy _ (fits.promo h).1) hW,
+            occ_plain_own blackAt _ fits hef hcf rfl (blackAt_own _ fits.piece) (fun h => blackAt_own _ (fits.promo h).1) hB,
+            occ_plain_own Option.isSome _ fits hef hcf rfl rfl (fun _ => rfl) hA⟩
+        · rw [hw] at fits
+          simp only [if_true]
+          exact ⟨occ_plain_own whiteAt _ fits hef hcf rfl (whiteAt_own _ fits.piece) (fun h => whiteAt_own _ (fits.promo h).1) hW,
+            occ_plain_opp_cap blackAt _ fits hef hcf rfl (blackAt_enemy _ fits.piece) (fun h => blackAt_enemy _ (fits.promo h).1) hB,
+            occ_plain_own Option.isSome _ fits hef hcf rfl rfl (fun _ => rfl) hA⟩
+      · have hcq : m.isCapture = false := by simpa using hc
+        simp only [hcq, Bool.false_eq_true, if_false]
+        cases hw : g.white
+        · rw [hw] at fits
+          simp only [Bool.false_eq_true, if_false]
+          exact ⟨occ_plain_opp_quiet whiteAt _ fits hcq hcf rfl (whiteAt_enemy _ fits.piece) (fun h => whiteAt_enemy _ (fits.promo h).1) hW,
+            occ_plain_own blackAt _ fits hef hcf rfl (blackAt_own _ fits.piece) (fun h => blackAt_own _ (fits.promo h).1) hB,
+            occ_plain_own Option.isSome _ fits hef hcf rfl rfl (fun _ => rfl) hA⟩
+        · rw [hw] at fits
+          simp only [if_true]
+          exact ⟨occ_plain_own whiteAt _ fits hef hcf rfl (whiteAt_own _ fits.piece) (fun h => whiteAt_own _ (fits.promo h).1) hW,
+            occ_plain_opp_quiet blackAt _ fits hcq hcf rfl (blackAt_enemy _ fits.piece) (fun h => blackAt_enemy _ (fits.promo h).1) hB,
+            occ_plain_own Option.isSome _ fits hef hcf rfl rfl (fun _ => rfl) hA⟩
+
 theorem makeCore_occ (g g' : Game) (m : Move) (b : Board)
     (hW : OccF whiteAt g.whiteOcc b) (hB : OccF blackAt g.blackOcc b) (hA : OccF Option.isSome g.allOcc b)
     (fits : MoveFits b g.white m) (hmk : makeCore g m = some g') :
     OccF whiteAt g'.whiteOcc (applyB b g.white m) ∧ OccF blackAt g'.blackOcc (applyB b g.white m) ∧
     OccF Option.isSome g'.allOcc (applyB b g.white m) := by
-  unfold makeCore at hmk
-  simp only at hmk
-  split at hmk
-  · exact absurd hmk (by simp)
-  · injection hmk with hmk
-    subst hmk
-    obtain ⟨pw, p1, p2, p3⟩ := makePre_occ g m
-    have hWP : WP = 0 := rfl
-    have hBP : BP = 6 := rfl
-    have hWR : WR = 3 := rfl
-    have hBR : BR = 9 := rfl
-    by_cases hcs : m.isCastling = true
-    · -- castling
-      obtain ⟨hpn, hc, r, f, t, hhop, _, _, _, _, hro, _⟩ := fits.castle hcs
-      obtain ⟨q1, q2, q3⟩ := makePost_occ_castle (makePre g m) m hpn hcs r f t hhop
-      rw [q1, q2, q3, pw, p1, p2, p3]
-      simp only [hc, Bool.false_eq_true, if_false]
-      cases hw : g.white
-      · rw [hw] at fits hro
-        have hr : r ≠ WR := by
-          rcases rookHop_rook _ _ _ _ hhop with h | h
-          · subst h; unfold ownP at hro; simp at hro <;> omega
-          · rw [h]; decide
-        simp only [Bool.false_eq_true, if_false, if_neg hr]
-        exact ⟨occ_castle_opp whiteAt _ fits hcs r f t hhop rfl (whiteAt_enemy _ fits.piece) (whiteAt_enemy _ hro) hW,
-          occ_castle_own blackAt _ fits hcs r f t hhop rfl (blackAt_own _ fits.piece) (blackAt_own _ hro) hB,
-          occ_castle_own Option.isSome _ fits hcs r f t hhop rfl rfl rfl hA⟩
-      · rw [hw] at fits hro
-        have hr : r = WR := by
-          rcases rookHop_rook _ _ _ _ hhop with h | h
-          · exact h
-          · subst h; unfold ownP at hro; simp at hro <;> omega
-        simp only [if_true, if_pos hr]
-        exact ⟨occ_castle_own whiteAt _ fits hcs r f t hhop rfl (whiteAt_own _ fits.piece) (whiteAt_own _ hro) hW,
-          occ_castle_opp blackAt _ fits hcs r f t hhop rfl (blackAt_enemy _ fits.piece) (blackAt_enemy _ hro) hB,
-          occ_castle_own Option.isSome _ fits hcs r f t hhop rfl rfl rfl hA⟩
-    · have hcf : m.isCastling = false := by simpa using hcs
-      obtain ⟨q1, q2, q3⟩ := makePost_occ_plain (makePre g m) m (Or.inr hcf)
-      rw [q1, q2, q3, pw, p1, p2, p3]
-      by_cases he : m.isEnpassant = true
-      · -- en passant
-        have hc := (fits.ep he).1
-        simp only [hc, he, if_true]
-        cases hw : g.white
-        · rw [hw] at fits
-          simp only [Bool.false_eq_true, if_false]
-          exact ⟨by have := occ_ep_opp whiteAt g.whiteOcc fits he rfl (whiteAt_enemy _ fits.piece) hW; simpa [vsq] using this,
-            occ_ep_own blackAt _ fits he rfl (blackAt_own _ fits.piece) (by simp [blackAt]) hB,
-            occ_ep_all _ fits he hA⟩
-        · rw [hw] at fits
-          simp only [if_true]
-          exact ⟨occ_ep_own whiteAt _ fits he rfl (whiteAt_own _ fits.piece) (by simp [whiteAt]) hW,
-            by have := occ_ep_opp blackAt g.blackOcc fits he rfl (blackAt_enemy _ fits.piece) hB; simpa [vsq] using this,
-            occ_ep_all _ fits he hA⟩
-      · have hef : m.isEnpassant = false := by simpa using he
-        simp only [hef, Bool.false_eq_true, if_false]
-        by_cases hc : m.isCapture = true
-        · simp only [hc, if_true]
-          cases hw : g.white
-          · rw [hw] at fits
-            simp only [Bool.false_eq_true, if_false]
-            exact ⟨occ_plain_opp_cap whiteAt _ fits hef hcf rfl (whiteAt_enemy _ fits.piece) (fun h => whiteAt_enemy _ (fits.promo h).1) hW,
-              occ_plain_own blackAt _ fits hef hcf rfl (blackAt_own _ fits.piece) (fun h => blackAt_own _ (fits.promo h).1) hB,
-              occ_plain_own Option.isSome _ fits hef hcf rfl rfl (fun _ => rfl) hA⟩
-          · rw [hw] at fits
-            simp only [if_true]
-            exact ⟨occ_plain_own whiteAt _ fits hef hcf rfl (whiteAt_own _ fits.piece) (fun h => whiteAt_own _ (fits.promo h).1) hW,
-              occ_plain_opp_cap blackAt _ fits hef hcf rfl (blackAt_enemy _ fits.piece) (fun h => blackAt_enemy _ (fits.promo h).1) hB,
-              occ_plain_own Option.isSome _ fits hef hcf rfl rfl (fun _ => rfl) hA⟩
-        · have hcq : m.isCapture = false := by simpa using hc
-          simp only [hcq, Bool.false_eq_true, if_false]
-          cases hw : g.white
-          · rw [hw] at fits
-            simp only [Bool.false_eq_true, if_false]
-            exact ⟨occ_plain_opp_quiet whiteAt _ fits hcq hcf rfl (whiteAt_enemy _ fits.piece) (fun h => whiteAt_enemy _ (fits.promo h).1) hW,
-              occ_plain_own blackAt _ fits hef hcf rfl (blackAt_own _ fits.piece) (fun h => blackAt_own _ (fits.promo h).1) hB,
-              occ_plain_own Option.isSome _ fits hef hcf rfl rfl (fun _ => rfl) hA⟩
-          · rw [hw] at fits
-            simp only [if_true]
-            exact ⟨occ_plain_own whiteAt _ fits hef hcf rfl (whiteAt_own _ fits.piece) (fun h => whiteAt_own _ (fits.promo h).1) hW,
-              occ_plain_opp_quiet blackAt _ fits hcq hcf rfl (blackAt_enemy _ fits.piece) (fun h => blackAt_enemy _ (fits.promo h).1) hB,
-              occ_plain_own Option.isSome _ fits hef hcf rfl rfl (fun _ => rfl) hA⟩
+  have := makeCore_some hmk
+  subst this
+  exact makeCore_occ_force g m b hW hB hA fits
 
 end Jence
